@@ -266,6 +266,16 @@ func groupRoot(c *fw.Case, withID bool) (*model.Root, string, error) {
 	// value columns for built-in aggregations
 	vi := model.GenCol(rng, "vi", model.KInt, n, &model.GenOpts{SmallInts: true})
 	vf := model.GenCol(rng, "vf", model.KFloat, n, &model.GenOpts{ExactFloat: true, NoNull: true})
+	if rng.Intn(5) == 0 && n > 0 {
+		// values on which the order of evaluation or a careless comparison shows: NaN, infinities, signed zeros
+		special := []float64{math.NaN(), math.NaN(), math.Inf(1), math.Inf(-1), 0, math.Copysign(0, -1)}
+		p := []float64{0.02, 0.1, 0.4}[rng.Intn(3)]
+		for i := range vf.F {
+			if rng.Float64() < p {
+				vf.F[i] = special[rng.Intn(len(special))]
+			}
+		}
+	}
 	vb := model.GenCol(rng, "vb", model.KBool, n, &model.GenOpts{})
 	f.Cols = append(f.Cols, vi, vf, vb)
 	if withID {
